@@ -185,6 +185,25 @@ def cacheseq(prop, tier, seed):
         "samples": [sample],
         "checker_cmd": "tlc MCCacheSeq (-config CacheSeq_mc_%s.cfg; generation cfgs; -simulate) + harness replay-cache" % tier,
     }
+    if prop == "C01":
+        # "in both manual and automatic refresh configurations": directory histories on an auto-refresh cache
+        g = run_tlc("CacheAuto", "CacheAuto_gen1.cfg", timeout=1800, simulate="num=%d" % (25 if tier == "quick" else 300), depth=40, seed=seed, workers=4, deadlock=True)
+        arows = dedupe_auto(g.rows)
+        fa = scratch_file("c01auto.ndjson")
+        write_rows(arows, fa)
+        try:
+            ares, _ = run_harness("replay-auto", ["-cases", fa, "-seed", seed, "-pacings", "0,2"], timeout=3000)
+        finally:
+            os.unlink(fa)
+        tool_errors(ares["mismatches"])
+        for m in tagged(ares["mismatches"], prop):
+            m["replay_sub"] = "replay-auto"
+            mine.append(m)
+        cov["auto_refresh_histories"] = ares["evaluations"]
+        cov["evaluations"] += ares["evaluations"]
+        cov["traces_validated_against_impl"] += ares["evaluations"]
+        cov["distinct_nontrivial"] += ares["distinct_nontrivial"]
+        cov["rule"] += "; plus seeded histories of spec/CacheAuto.tla on a real auto-refresh cache (free-running and watcher-held pacings), polled until equal to a fresh cache"
     if prop == "C16":
         # the naming half: generated transient names and the write/refresh/remove cycle under them
         nm = generic_replay(prop, tier, seed, [("SpecName", "SpecName_quick.cfg" if tier == "quick" else "SpecName_thorough.cfg", {})],
@@ -637,3 +656,71 @@ def c20(prop, tier, seed):
                                 "not to grow; reaction to a change in a final vs. a dropped directory (refresh.done count); a cache created and "
                                 "reconfigured under RLIMIT_NOFILE exhaustion; the default cache configured before and after first use." % n)
     return out
+
+
+# ---------------------------------------------------------------------------------------
+# C12: concurrency - spec/CacheConc.tla (lock discipline), harness stress (-race)
+
+def race_reports(stderr):
+    out, cur = [], None
+    for l in stderr.splitlines():
+        if l.startswith("WARNING: DATA RACE"):
+            cur = [l]
+            out.append(cur)
+        elif cur is not None:
+            if l.startswith("=================="):
+                cur = None
+            else:
+                cur.append(l)
+    return ["\n".join(r[:40]) for r in out]
+
+
+@check("C12")
+def c12(prop, tier, seed):
+    vlib.build_harness(race=True)
+    mc_cfgs = ["CacheConc_quick.cfg"] if tier == "quick" else ["CacheConc_all.cfg", "CacheConc_3c.cfg"]
+    emit_cfg = "CacheConc_emit.cfg" if tier == "quick" else "CacheConc_emitall.cfg"
+    rs = parallel(*([(lambda c=c: run_tlc("MCCacheConc", c, timeout=3000, workers=8)) for c in mc_cfgs]
+                    + [lambda: run_tlc("MCCacheConc", emit_cfg, timeout=1800, workers=4)]))
+    mcs, em = rs[:-1], rs[-1]
+    for r, c in zip(mcs, mc_cfgs):
+        model_must_hold(r, c)
+    model_must_hold(em, emit_cfg)
+    progs = {json.dumps(r, sort_keys=True): r for r in em.rows}
+    rows = list(progs.values())
+    if not rows:
+        raise ToolFailure("vacuous: no client program emitted")
+    f = scratch_file("programs.ndjson")
+    write_rows(rows, f)
+    try:
+        res, err = run_harness("stress", ["-cases", f, "-seed", seed, "-duration", "12s" if tier == "quick" else "8m"], race=True,
+                               timeout=3000, env_extra={"GORACE": "exitcode=0 history_size=3"})
+    finally:
+        os.unlink(f)
+    mism = tagged(res["mismatches"], prop)
+    races = race_reports(err)
+    seen = set()
+    for r in races:
+        # one violation per distinct pair of source locations
+        locs = tuple(sorted(set(l.strip() for l in r.splitlines() if "/repo/" in l)))[:4]
+        if locs in seen:
+            continue
+        seen.add(locs)
+        mism.append({"what": "data-race", "props": [prop], "case": -1, "step": -1, "want": "no race-detector report", "got": list(locs), "note": r, "row": None})
+    extra = res.get("extra", {})
+    cov = {"states": sum(r.distinct for r in mcs), "transitions": sum(r.generated for r in mcs),
+           "traces_validated_against_impl": res["evaluations"], "evaluations": extra.get("operations", res["evaluations"]),
+           "distinct_nontrivial": len(rows), "client_programs": len(rows), "stress_rounds": extra.get("rounds"),
+           "critical_sections_counted": extra.get("critical_sections_counted"), "race_reports": len(races),
+           "rule": "model: TLC explores every interleaving of 2 clients running every program of 2 operations (quick: the 7 operations that differ "
+                   "in lock discipline; thorough: all 13, and 3 clients x single operations), the watcher goroutine and an atomic switcher; "
+                   "NoRace/MutualExclusion/SnapshotOK and absence of deadlock. code: the same client programs, replicated over all cores, run "
+                   "under the race detector against one auto-refresh cache while a switcher renames two contents (two devices each) into place; "
+                   "every ListDevices/GetDevice/InjectDevices/GetVendorSpecs result must be one content completely; a counter incremented from "
+                   "the hook inside every critical section races if a lock is dropped; no operation completing for 30 s is a stall. "
+                   "distinct_nontrivial = distinct client program pairs executed",
+           "samples": rows[:2], "exhaustive": False,
+           "checker_cmd": "tlc MCCacheConc ; harness-race stress"}
+    return {"level": "model_checking", "coverage": cov, "mismatches": mism, "replay_with": "",
+            "assumptions": ["interleavings are exhaustive in the model only; on the code the race detector is sound for the executions it sees",
+                            "the lock-discipline table of spec/CacheConc.tla is a transcription of cache.go (read/write sets per operation)"]}
